@@ -271,6 +271,33 @@ Theorem C15_decode_of_encode_outcome :
 Proof. exact decode_outcome_enc. Qed.
 Print Assumptions C15_decode_of_encode_outcome.
 
+(* soundness of the whole decode on ANY text the parser reads: what is accepted meets every
+   documented rule (so a message that breaks a rule is never accepted) *)
+Theorem C15_decode_accepts_only_rule_abiding :
+  forall iota utg wg s w, decode_obs iota utg wg s = D_ok w ->
+    dec_obs s = Some w /\ obs_rules utg wg (abs_obs iota w).
+Proof. exact decode_obs_sound. Qed.
+Print Assumptions C15_decode_accepts_only_rule_abiding.
+
+Theorem C15_decode_accepts_only_rule_abiding_outcome :
+  forall iota utg wg s w, decode_outcome iota utg wg s = D_ok w ->
+    dec_outcome s = Some w /\ outcome_rules utg wg (abs_outcome iota w).
+Proof. exact decode_outcome_sound. Qed.
+Print Assumptions C15_decode_accepts_only_rule_abiding_outcome.
+
+(* the equivalence the agreement level works modulo: a nil slice and an empty one (perform
+   data, the lists of results / proposals / blocks / rounds) are different wire values - kept
+   apart by C15_roundtrip - with one and the same abstraction, hence the same verdict *)
+Theorem C15_nil_and_empty_have_one_abstraction :
+  forall iota o, abs_obs iota (norm_obs o) = abs_obs iota o.
+Proof. exact abs_norm_obs. Qed.
+Print Assumptions C15_nil_and_empty_have_one_abstraction.
+
+Theorem C15_nil_and_empty_have_one_abstraction_outcome :
+  forall iota o, abs_outcome iota (norm_outcome o) = abs_outcome iota o.
+Proof. exact abs_norm_outcome. Qed.
+Print Assumptions C15_nil_and_empty_have_one_abstraction_outcome.
+
 (* ---- non-vacuity ---- *)
 Definition ex_utg (u : N) : N := if u =? 2 then 1 else 0.
 Definition ex_wg (u : N) (t : trigger) : N :=
